@@ -64,7 +64,10 @@ def steps_of(start, end, unit, n):
 
 def gen_scenario(rng, focus=None, entry=None):
     """focus biases the feature mix: None, 'treat', 'mortality', 'sei', 'soil',
-    'multi', 'overpop', 'movement', 'removal', 'det', 'oversuit' (several hosts and a
+    'multi', 'overpop', 'movement', 'removal', 'det', 'lonecell' (a single-cell landscape with
+    several hosts of which one dies out during the run: every per-cell lookup of a step is
+    about the same cell as the last lookup of the step before, while the host combination
+    present there changes), 'oversuit' (several hosts and a
     cell whose total population is below the hosts' combined susceptibles: every
     host's own suitability is <= 1 but their sum is not - documented as rejected)."""
     sc = Scenario()
@@ -73,6 +76,8 @@ def gen_scenario(rng, focus=None, entry=None):
     # long latency, long mortality trackers, more hosts, bigger rasters and counts)
     large = rng.random() < 0.05
     rows, cols = rng.choice(SHAPES + ([(5, 7), (6, 3), (1, 12), (7, 2)] * 3 if large else []))
+    if focus == "lonecell":
+        entry, large, rows, cols = "pools", False, 1, 1
     ncell = rows * cols
     res = rng.choice([("30", "30"), ("10", "30"), ("100", "100"), ("1/2", "1/2"), ("30", "10")])
     # calendar: short runs, a unit so that yearly things fire somewhere
@@ -98,7 +103,7 @@ def gen_scenario(rng, focus=None, entry=None):
     gen_st = 0 if det else rng.choice([0, 1])
     est_st = 0 if det else rng.choice([0, 1, 1])
     disp_st = rng.choice([0, 1, 1, 1])
-    nhosts = 1 if entry == "rasters" else (rng.choice([4, 5]) if large and rng.random() < 0.4 else rng.choice([2, 3]) if focus in ("multi", "oversuit") else rng.choice([1, 1, 1, 2, 3]))
+    nhosts = 1 if entry == "rasters" else (rng.choice([4, 5]) if large and rng.random() < 0.4 else rng.choice([2, 3]) if focus in ("multi", "oversuit", "lonecell") else rng.choice([1, 1, 1, 2, 3]))
     season = rng.choice([(1, 12), (1, 12), (3, 9), (5, 6), (12, 12)])
     use = lambda p: 1 if rng.random() < p else 0
     f = focus
@@ -107,7 +112,9 @@ def gen_scenario(rng, focus=None, entry=None):
     use_overpop = use(0.9 if f == "overpop" else 0.2)
     use_moves = use(0.9 if f == "movement" else 0.25)
     use_treat = use(0.95 if f == "treat" else 0.4)
-    use_mort = use(0.95 if f == "mortality" else 0.4)
+    use_mort = 1 if f == "lonecell" else use(0.95 if f == "mortality" else 0.4)
+    if f == "lonecell":
+        use_moves = 0
     use_soil = use(0.9 if f == "soil" else 0.15)
     use_weather = 1 if use_soil and rng.random() < 0.95 else use(0.4)
     use_sr = use(0.2)
@@ -129,7 +136,7 @@ def gen_scenario(rng, focus=None, entry=None):
     sc.add("estprob", dy(rng, ["0", "1/4", "1/2", "3/4", "1", "1"]))
     # (large scenarios: low rates - the outside-disperser list is printed in every snapshot and the
     # extracted model appends to it in linear time, so tens of thousands of dispersers cost hours)
-    sc.add("rr", dy(rng, ["0", "1/4", "1/2", "1/4", "1"]) if large else dy(rng, ["0", "1/2", "1", "2", "3", "3/2", "4", "1/4"]))
+    sc.add("rr", dy(rng, ["0", "1/4", "1/2", "1/4", "1"]) if large else dy(rng, ["1/2", "1", "2", "3"]) if focus == "lonecell" else dy(rng, ["0", "1/2", "1", "2", "3", "3/2", "4", "1/4"]))
     ktype = rng.choice(["cauchy", "exponential", "deterministic-neighbor", "cauchy", "weibull", "logistic", "normal", "uniform"])
     if focus == "overpop" and rng.random() < 0.4:
         ktype = "deterministic-neighbor"
@@ -149,6 +156,8 @@ def gen_scenario(rng, focus=None, entry=None):
     sc.add("movements", use_moves)
     sc.add("treatments", use_treat)
     mfreq = rng.choice(["month", "year", "every_n_steps", "every_step", "final_step", "month", "every_step", "every_n_steps", "week"] if rng.random() < 0.15 else ["month", "year", "every_n_steps", "every_step", "final_step"])
+    if focus == "lonecell":
+        mfreq = rng.choice(["every_step", "every_n_steps", "month"])
     sc.add("mortality", use_mort, mfreq, rng.choice([1, 2, 3]))
     sc.add("spreadrates", use_sr, rng.choice(["year", "every_n_steps", "month"]), rng.choice([1, 2]))
     sc.add("quarantine", use_q, rng.choice(["year", "every_n_steps", "month"]), rng.choice([1, 2]))
@@ -165,10 +174,14 @@ def gen_scenario(rng, focus=None, entry=None):
                 sus = rng.choice(["1/2", "3/4", "0"])
             lag = rng.randint(0, nm - 1)
             rate = dy(rng, ["0", "1/4", "1/2", "3/4", "1", "1/2", "1/8"])
+            if focus == "lonecell":
+                # the last host dies out (only infected hosts, all of them die at the first mortality
+                # step they are eligible for); the others keep their infection
+                lag, rate = (rng.choice([0, 0, min(1, nm - 1)]), "1") if h == nhosts - 1 else (lag, rng.choice(["0", "0", "1/4"]))
             sc.add("pht", h, sus, rate, lag)
         if entry == "pools" and rng.random() < 0.3:
             sc.add("tables", "direct")   # pest-host table filled with add_host_info, not through Config
-        if rng.random() < (0.85 if focus == "multi" else 0.5) and nhosts >= 1 and entry == "pools":
+        if rng.random() < (1.0 if focus == "lonecell" else 0.85 if focus == "multi" else 0.5) and nhosts >= 1 and entry == "pools":
             # competency table: complete (2^n rows) or partial
             if rng.random() < 0.5:
                 for mask in range(2 ** nhosts):
@@ -199,6 +212,12 @@ def gen_scenario(rng, focus=None, entry=None):
         cells = [gen_cell(rng, ne, nm, mt, big=(nhosts == 1), huge=large) for _ in range(ncell)]
         if all(c["I"] == 0 for c in cells) and h == 0:
             cells[rng.randrange(ncell)] = dict(S=10, E=[0] * ne, I=nm and 4, R=0, M=([4] + [0] * (nm - 1)), D=0)
+        if focus == "lonecell":
+            if h == nhosts - 1:
+                kk = rng.randint(1, 3)
+                cells[0] = dict(S=0, E=[0] * ne, I=kk, R=0, M=([0] * (nm - 1) + [kk]) if rng.random() < 0.5 else ([kk] + [0] * (nm - 1)), D=0)
+            elif cells[0]["I"] == 0:
+                cells[0] = dict(S=10, E=[0] * ne, I=4, R=0, M=([4] + [0] * (nm - 1)), D=0)
         hosts.append(cells)
         sc.add("cells", h, *[cell_text(c) for c in cells])
     # suitable cells: where any host has hosts (shared list content, per-host copy)
